@@ -12,6 +12,30 @@ use std::sync::{Arc, Mutex};
 use tokio::sync::oneshot;
 use tokio::task::JoinHandle;
 
+tokio::task_local! {
+    /// the scheduler controlling the current client task (used by akd's verif_hooks pause points)
+    static CUR_SCHED: Arc<Sched>;
+}
+
+/// Install the process-wide pause callback of akd's `verif_hooks`: a client task of a controlled run
+/// parks at the named point like at a storage operation; any other task passes straight through.
+pub fn install_pause_hook() {
+    let f: akd::verif_hooks::PauseFn = Arc::new(|point: &'static str| {
+        Box::pin(async move {
+            let task = crate::xdb::cur_task();
+            if task == 0 {
+                return;
+            }
+            if let Ok(s) = CUR_SCHED.try_with(|s| s.clone()) {
+                if s.pause_points {
+                    s.park(task, format!("pause:{point}")).await;
+                }
+            }
+        })
+    });
+    akd::verif_hooks::set_pause(Some(f));
+}
+
 /// pseudo task id of the action "advance the paused clock by one period"
 pub const CLOCK: u32 = u32::MAX;
 const SETTLE_ROUNDS: u32 = 40;
@@ -26,6 +50,7 @@ struct State {
 pub struct Sched {
     st: Mutex<State>,
     exit_gates: bool,
+    pause_points: bool,
 }
 
 impl Sched {
@@ -250,7 +275,7 @@ pub struct Runner {
 impl Runner {
     pub fn new(exit_gates: bool) -> Self {
         Runner {
-            sched: Arc::new(Sched { st: Mutex::new(State::default()), exit_gates }),
+            sched: Arc::new(Sched { st: Mutex::new(State::default()), exit_gates, pause_points: true }),
             handles: vec![],
             daemons: HashSet::new(),
             clock_period: None,
@@ -269,11 +294,15 @@ impl Runner {
         F: Future<Output = ()> + Send + 'static,
     {
         let sched = self.sched.clone();
-        let h = tokio::spawn(TASK_ID.scope(id, async move {
-            sched.park(id, "start".to_string()).await;
-            fut.await;
-            sched.finish(id);
-        }));
+        let s2 = sched.clone();
+        let h = tokio::spawn(CUR_SCHED.scope(
+            s2,
+            TASK_ID.scope(id, async move {
+                sched.park(id, "start".to_string()).await;
+                fut.await;
+                sched.finish(id);
+            }),
+        ));
         self.handles.push((id, h));
     }
 
